@@ -9,7 +9,7 @@ from .c13 import doc_of, flat_doc, job_files
 
 PROP = "C14"
 LEVEL = "exploration"
-MONITORS = ["file_overwritten_iff_verdict", "strategy_only_for_differing", "no_strategy_raises", "key_overwritten_iff_selected",
+MONITORS = ["doc_rollback_dry_run", "file_overwritten_iff_verdict", "strategy_only_for_differing", "no_strategy_raises", "key_overwritten_iff_selected",
             "key_strategy_full_path", "doc_rollback"]
 RULE = (
     "Conflicting pairs from the C13 universe (files differing in content with equal/different size and older/equal/"
@@ -208,6 +208,36 @@ def run_case(ctx, case):
             return
 
     # ---------------------------------------------------------------- documents
+    if isinstance(err, DocumentSyncConflict):
+        # the rollback clause holds whatever the options: repeat the raising call as a dry run on a rebuilt destination
+        D2 = syncgen.build(ctx, dst_spec, "e")
+
+        def doc_files(root):
+            return {k: v[1] for k, v in model.snapshot(root).items()
+                    if v[0] == "f" and os.path.basename(k) in (model.DOC_FILE, os.path.basename(model.PDOC_FILE))}
+
+        b2 = doc_files(D2.path)
+        if case["level"] == "job":
+            try:
+                D2.open_job(syncgen.sp_of(synced[0])).sync(
+                    S.open_job(syncgen.sp_of(synced[0])), strategy=syncgen.file_strategy(opts["strategy"], []),
+                    exclude=copy.deepcopy(opts["exclude"]), doc_sync=syncgen.doc_strategy(opts, []),
+                    recursive=opts["recursive"], dry_run=True)
+                err2 = None
+            except Exception as e:  # noqa
+                err2 = e
+        else:
+            err2 = syncgen.call_sync(D2, S, opts, [], [], entry=case["entry"], dry_run=True)
+        if isinstance(err2, DocumentSyncConflict):
+            ctx.monitor("doc_rollback_dry_run")
+            a2 = doc_files(D2.path)
+            changed = sorted(k for k in set(a2) | set(b2) if a2.get(k) != b2.get(k))
+            if changed:
+                ctx.violation("document-not-rolled-back-after-conflict",
+                              "DocumentSyncConflict was raised in a dry run but a destination document changed",
+                              {"files": changed, "before": {k: b2.get(k, b"").decode() for k in changed},
+                               "after": {k: a2.get(k, b"").decode() for k in changed}, "dry_run": True})
+                return
     docs = []
     if project_doc_synced:
         before = json.loads(d_before[model.PDOC_FILE][1].decode()) if model.PDOC_FILE in d_before else {}
